@@ -39,8 +39,8 @@ func P7BlockEnc(encrypter cipher.BlockMode, in io.Reader, out io.Writer) error {
 	bufOut := make([]byte, 1024)
 	p7In := NewPKCS7PaddingReader(in, encrypter.BlockSize())
 	for {
-		n, err := p7In.Read(bufIn)
-		if err != nil && err != io.EOF {
+		n, err := io.ReadFull(p7In, bufIn)
+		if err != nil && err != io.EOF && err != io.ErrUnexpectedEOF {
 			return err
 		}
 		if n == 0 {
